@@ -21,6 +21,7 @@ def check(run):
     run.guard(BR.check_direct_build_closure, funcs, 'C07')
     run.guard(BR.check_integrator_closures, funcs, 'C07')
     run.guard(BR.check_build_partial_passes_mask, funcs, 'C07')
+    run.guard(BR.check_mask_flow, funcs, 'C07')
     run.guard(SR.all_transitions, funcs, 'C07')       # build(mask) -> with_faces() keeps the mask and the cells
     run.guard(BR.check_face_loops, funcs, 'C07')      # the same rule in the symmetric face integrals (anchor convex_cell.rs:646-657)
     run.assume('the construction of one ConvexCell (r-tree search + clipping) is a function of the arguments of ConvexCell::build: not encoded')
